@@ -53,6 +53,7 @@ type World struct {
 	escMemo      map[ssa.Value]bool
 	stableMemo   map[string]bool
 	copierMemo   map[*ssa.Function]string
+	persistMemo  map[*types.Var]string
 	copyKeyBusy  bool
 	reqBuildMemo *reqBuild
 	factMemo     map[*ssa.Function]*funcFacts
